@@ -192,7 +192,7 @@ static void run_dist(const std::map<std::string,std::string>& spec)
                                 // the result loses initial (distance-0) states and is otherwise never better than the truth:
                                 // some state with expected distance 0 reads negative, every other point is equal, negative, or larger
                                 Table got; read_eval(r,sk,s,got); bool lost0=false, neverbetter=true;
-                                for (long p=0;p<N;p++) { if (want[p]==0 && got[p]<0) lost0=true; if (!(got[p]==want[p] || got[p]<0 || (want[p]>=0 && got[p]>want[p]))) neverbetter=false; }
+                                for (long p=0;p<N;p++) { if (want[p]==0 && got[p]!=0) lost0=true; if (!(got[p]==want[p] || got[p]<0 || (want[p]>=0 && got[p]>want[p]))) neverbetter=false; }
                                 if (lost0 && neverbetter) { tag = "mtint-satur-loses-distance0"; knowncls=true; }
                             }
                             violation(tag,"%s: relation [%s] initial set %s: %s", sk.name().c_str(), tab_str(rt).c_str(), tab_str(it).c_str(), err.c_str());
